@@ -836,6 +836,23 @@ pub fn layout_suites(thorough: bool) -> Vec<Suite> {
     for format in [1, 2, 3] {
         v.push(crash_suite(&format!("layout-edge-v{format}"), disk(format, true, false), edge_tables(), edge_ops(), d(4, 6)));
     }
+    // generations that run out while the store is down (recovery drops and retires them) or while it is
+    // up (sweeper / lazy expiry), then an acknowledged flush: the counters in the metadata must be the
+    // live totals again
+    for format in [3, 2] {
+        let ops = vec![
+            ins_ttl(0, V_X, 1, 0),
+            ins_ttl(1, V_BIG3, 1, 0),
+            ins(1, V_X),
+            ins(0, V_BIG2),
+            Op::Delete { k: 1, ts: 0 },
+            Op::Advance(3),
+            Op::Sweep,
+            Op::Flush,
+            Op::Reopen,
+        ];
+        v.push(crash_suite(&format!("layout-expiry-v{format}"), disk(format, true, true), std_tables(), ops, d(5, 6)));
+    }
     // the "never 0" rule of the v3 token: the first record of a fresh device (block 16)
     // gets a value whose raw token fold is 0 / 1 / 0xffff
     {
